@@ -4,7 +4,7 @@
 // cfg: [0] n stations declared, [1] p (-1 = own address absent), [2] decoy (0 none, 1 near-miss addresses, 2 own address straddling two slots),
 //      [3] table class 0..6, [4] opcode, [5] ToS, [6] real destination broadcast?, [7] held (-1 = n; else stations really inside the received length),
 //      [8] generation, [9] xid
-enum { T_NULL, T_EMPTY, T_SAME_SAME_XID, T_SAME_OTHER_XID, T_SAME_MAPPER_OTHER_GEN, T_OTHER_MAPPER_SAME_GEN, T_FULL_OTHERS };
+enum { T_NULL, T_EMPTY, T_SAME_SAME_XID, T_SAME_OTHER_XID, T_SAME_MAPPER_OTHER_GEN, T_OTHER_MAPPER_SAME_GEN, T_FULL_OTHERS, T_HOLE_THEN_OTHER_XID, T_HOLE_THEN_SAME_XID, T_NCLASSES };
 
 static const Mac OWN = {{0x02, 0x11, 0x22, 0x33, 0x44, 0x55}};
 static const Mac MAPPER = {{0x02, 0xAA, 0x00, 0x00, 0x00, 0x01}};
@@ -51,6 +51,12 @@ static Verdict run(const Case &c) {
         case T_SAME_MAPPER_OTHER_GEN: br_st_add(t, MAPPER.b, (uint16_t)(gen + 1), (uint16_t)(xid + 1)); break;
         case T_OTHER_MAPPER_SAME_GEN: br_st_add(t, other.b, gen, (uint16_t)(xid + 1)); break;
         case T_FULL_OTHERS: for (int i = 0; i < br_st_capacity(); i++) { Mac m = mac_from_u64(0x02CC00000000ULL + (uint64_t)i); br_st_add(t, m.b, gen, (uint16_t)(xid + 1)); } break;
+        case T_HOLE_THEN_OTHER_XID: case T_HOLE_THEN_SAME_XID:   // the matching session sits behind a freed slot (an earlier session was removed)
+            br_st_add(t, other.b, gen, 1); { Mac o2 = {{0x02, 0xAA, 0, 0, 0, 3}}; br_st_add(t, o2.b, gen, 1); }
+            br_st_add(t, MAPPER.b, gen, tclass == T_HOLE_THEN_OTHER_XID ? (uint16_t)(xid ^ 0x0100) : xid);
+            br_st_remove(t, other.b, gen);
+            changed = tclass == T_HOLE_THEN_OTHER_XID;
+            break;
         default: break;
     }
     Bytes before;
@@ -104,21 +110,21 @@ int main(int argc, char **argv) {
     Current::install(a.failing);
     Evidence ev;
     ev.rule = "derive_session_event (built without LLTD_TESTING) on harness-built frames in a malloc(1500) buffer. Enumerated: every (n, position) layout (quick: n <= 40; thorough: n <= 240, 29161 layouts) "
-              "x 7 session-table classes; all 256 opcodes x real destination broadcast/unicast. Random: n 0..240, position, near-miss decoys, own address straddling two slots, "
+              "x 9 session-table classes (null, empty, same/other transaction, other generation, other mapper, full, and the matching session behind a freed slot); all 256 opcodes x real destination broadcast/unicast. Random: n 0..240, position, near-miss decoys, own address straddling two slots, "
               "count larger than the frame holds, generation/xid, ToS. non-trivial = Discover with n >= 2 and own address at index >= 1, or a decoy present; distinct = digest of the case";
     bool ok = true;
     int nmax = a.quick() ? 40 : 240;
     long k = 0;
     for (int n = 0; n <= nmax && ok; n++)
         for (int p = -1; p < n && ok; p++)
-            for (int t = 0; t < 7 && ok; t++, k++) {
+            for (int t = 0; t < T_NCLASSES && ok; t++, k++) {
                 if (k % a.nshards != a.shard) continue;
                 ok = one(a, ev, {n, p, 0, t, OP_DISCOVER, n & 1, 1, -1, 0x1234, 0x0042}, "c11-layouts");
             }
     for (int opc = 0; opc < 256 && ok; opc++)
         for (int bc = 0; bc < 2 && ok; bc++) {
             if ((opc * 2 + bc) % a.nshards != a.shard || opc == OP_DISCOVER) continue;
-            ok = one(a, ev, {3, 1, 0, (opc + bc) % 7, opc, opc & 1, bc, -1, 7, 9}, "c11-opcodes");
+            ok = one(a, ev, {3, 1, 0, (opc + bc) % T_NCLASSES, opc, opc & 1, bc, -1, 7, 9}, "c11-opcodes");
         }
     if (ok) {
         auto gen = rc::gen::exec([] {
@@ -127,7 +133,7 @@ int main(int argc, char **argv) {
             int64_t p = n == 0 ? -1 : *gx::weighted<int64_t>({{1, rc::gen::just<int64_t>(-1)}, {1, rc::gen::just<int64_t>(0)}, {1, rc::gen::just<int64_t>(n - 1)}, {3, gx::range<int64_t>(0, n - 1)}});
             int64_t held = *gx::chance(25) ? *gx::range<int64_t>(0, n) : -1;
             int64_t opc = *gx::weighted<int64_t>({{12, rc::gen::just<int64_t>(0)}, {1, rc::gen::just<int64_t>(8)}, {1, rc::gen::just<int64_t>(1)}, {1, gx::range<int64_t>(0, 255)}});
-            c.cfg = {n, p, *gx::pick({0, 0, 1, 2}), *gx::range<int64_t>(0, 6), opc, *gx::pick({0, 1}), *gx::pick({0, 1}), held,
+            c.cfg = {n, p, *gx::pick({0, 0, 1, 2}), *gx::range<int64_t>(0, T_NCLASSES - 1), opc, *gx::pick({0, 1}), *gx::pick({0, 1}), held,
                      *gx::bnd({0, 1, 0xFFFF}, 0, 0xFFFF, 1, 1), *gx::bnd({0, 1, 0xFFFF}, 0, 0xFFFF, 1, 1)};
             return c;
         });
